@@ -257,6 +257,26 @@ def run_job(job):
     return r
 
 
+def hex_rounding_strings(tier):
+    """hexadecimal inputs that are not exactly representable: 13/14/15+ fraction digits around ties, at the normal/subnormal/underflow/overflow
+    exponents, long zero runs and digit runs beyond 128 bits: fromhex rounds to nearest-even, underflows to 0 and overflows to an error"""
+    out = []
+    fr13 = ['0000000000000', '0000000000001', 'fffffffffffff', 'ffffffffffffe', '8000000000000', '123456789abcd']
+    tails = ['', '0', '7', '8', '9', 'f', '80', '800000000001', '7fffffffffff', '8' + '0' * 30, '8' + '0' * 30 + '1', 'f' * 40]
+    exps = [0, 1, -1, -1021, -1022, -1023, -1024, -1070, -1073, -1074, -1075, -1076, -1080, -1200, 1022, 1023, 1024, 2000]
+    heads = ['1', '0', 'f', '1f', '8'] if tier != 'quick' else ['1', 'f']
+    for h in heads:
+        for f in fr13:
+            for t in tails:
+                for e in exps:
+                    for sign in ('', '-'):
+                        out.append('%s0x%s.%s%sp%d' % (sign, h, f, t, e))
+    for e in exps:
+        out += ['0x.%s1p%d' % ('0' * 40, e), '0x1%sp%d' % ('0' * 40, e - 160), '1p%d' % e, '0x0.8p%d' % e, '0x0.4p%d' % e, '0x0.c%sp%d' % ('0' * 20, e), '0x1p%s%d' % ('+' if e >= 0 else '', e)]
+    out += ['1p-99999999999999999999', '1p99999999999999999999', '0x1p+-1', '0x1.p', '0x.p0', '0x1.8p', '0x1_0p0']
+    return out
+
+
 PARSE_SIGMA = [' ', '+', '-', '0', '1', '9', '_', '.', 'e']
 HEX_SIGMA = ['0', '1', 'f', 'x', 'p', '.', '+', '-', 'a']
 
@@ -270,13 +290,15 @@ def jobs(tier):
     Vf = V if tier != 'quick' else V[::6]
     for ch in X.chunks(iter(Vf), 100):
         out.append(('fmt', ch, precs))
-    n = 6 if tier == 'quick' else 7
+    n = 6 if tier == 'quick' else 8
     for s in X.prefix_shards(PARSE_SIGMA, n):
         out.append(('parse', PARSE_SIGMA, n, s))
     out.append(('parse', None, None, None, special_strings()))
-    nh = 6 if tier == 'quick' else 7
+    nh = 6 if tier == 'quick' else 8
     for s in X.prefix_shards(HEX_SIGMA, nh):
         out.append(('hexparse', HEX_SIGMA, nh, s))
+    for ch in X.chunks(iter(hex_rounding_strings(tier)), 4000):
+        out.append(('hexparse', None, None, None, ch))
     return out, len(V), len(Vf)
 
 
@@ -292,7 +314,7 @@ def run(tier, seed):
             'm*10^e, extremes, specials, both signs); format_fixed/exponent/general on %d of them x precision 0..20 x case x alternate flag vs '
             'C printf; parse_str/parse_bytes on every string of length<=%d over %r plus every case/sign/whitespace/one-edit variant of inf/infinity/nan; '
             'from_hex on every string of length<=%d over %r; non-trivial = (conversion input accepted by Python) or a formatting evaluation; '
-            'distinct = distinct (function, input)' % (nv, nvf, 6 if tier == 'quick' else 7, ''.join(PARSE_SIGMA), 6 if tier == 'quick' else 7, ''.join(HEX_SIGMA)))
+            'distinct = distinct (function, input)' % (nv, nvf, 6 if tier == 'quick' else 8, ''.join(PARSE_SIGMA), 6 if tier == 'quick' else 8, ''.join(HEX_SIGMA)))
     return C.finish(PROP, tier, seed, t0, total, rule,
                     ['CPython 3.11 float()/repr/float.hex/fromhex/%-formatting define the reference',
                      'to_string is judged on round trip, digit count and shape only (exact ties may legitimately pick another last digit)'],
